@@ -416,17 +416,31 @@ def div_family():
                 H("k_div_dword_%s_%s_%d" % (lo, hi, n), "h_div::k_div_dword::<%d,%d>(%d,%d,false)" % (n, n + 2, dl, dh),
                   Q("C02") if q else TH("C02", "C19"), cfg, unwind=n + 6, bound="div_by_dword_in_place, concrete divisor (%s,%s), structured dividends of %d words" % (lo, hi, n))
     WH = ["div", "rem", "divrem", "div_euclid", "rem_euclid", "divrem_euclid", "divrem_assign", "opassign", "multiple"]
+    W = 64
+    M = (1 << W) - 1
+    # literal divisors per length class (symbolic divisors make the reciprocal computation symbolic: only the smallest shapes finish)
+    LITS = {1: {"d3": [3], "dtop5": [(1 << (W - 1)) + 5], "drad": [10 ** 19]},
+            2: {"dw_noshift": [5, 1 << (W - 1)], "dw_shift": [9, 7], "dw_pow2": [0, 1 << 9]},
+            3: {"lg705": [7, 0, 5], "lgtop": [M, 0, 1 << (W - 1)]},
+            4: {"lg4": [3, 0, 0, 11]}}
     for na in range(0, 5):
         for nb in range(1, 5):
             p = max(na, nb) + 1
             for w in range(9):
                 nf = 4 if w <= 2 else (2 if w == 7 else 1)
                 for f in range(nf):
-                    small = na <= 3 and nb <= 3
-                    quick = small and f == (na + nb + w) % nf and ((na, nb) in ((1, 1), (2, 1), (2, 2), (3, 1), (3, 2), (3, 3), (1, 3), (0, 2), (2, 3)))
-                    pr = Q("C02", "C15", "C17") if quick else TH("C02", "C15", "C17")
-                    H("c02_%s_u_%d%d_f%d" % (WH[w], na, nb, f), "h_div::div_u::<%d,%d,%d>(%d,%d,4)" % (na, nb, p, w, f), pr, unwind=p + 6,
-                      bound="UBig %s, lengths exactly (%d,%d), structured words (4-bit payload x 4 placements), identity q*b+r=a" % (WH[w], na, nb))
+                    # symbolic divisor: only where the quotient is trivially 0 or both operands are one word
+                    if na < nb or (na, nb) == (1, 1):
+                        quick = f == (na + nb + w) % nf and (na, nb) in ((1, 1), (1, 3), (0, 2), (2, 3))
+                        H("c02_%s_u_%d%d_f%d" % (WH[w], na, nb, f), "h_div::div_u::<%d,%d,%d>(%d,%d,4,None)" % (na, nb, p, w, f),
+                          Q("C02", "C15", "C17") if quick else TH("C02", "C15", "C17"), unwind=p + 6,
+                          bound="UBig %s, lengths exactly (%d,%d), structured words, symbolic divisor, identity q*b+r=a" % (WH[w], na, nb))
+                    if na >= nb:
+                        for ln, lit in LITS[nb].items():
+                            quick = na <= 3 and f == (na + nb + w) % nf and ln in ("d3", "dtop5", "dw_shift", "dw_noshift", "lg705", "lgtop") and (w in (0, 1, 2, 5, 6) or (na + w) % 3 == 0)
+                            H("c02_%s_u_%d_%s_f%d" % (WH[w], na, ln, f), "h_div::div_u::<%d,%d,%d>(%d,%d,4,Some([%s]))" % (na, nb, p, w, f, ",".join(map(str, lit))),
+                              Q("C02", "C15", "C17") if quick else TH("C02", "C15", "C17"), unwind=p + 6,
+                              bound="UBig %s, dividend of exactly %d structured words, literal divisor %s, identity q*b+r=a" % (WH[w], na, ln))
     for na in (0, 1, 2, 3):
         for w in range(9):
             H("c02_div_u_zero_%d_%d" % (na, w), "h_div::div_u_zero::<%d>(%d)" % (na, w), Q("C02", "C16") if (na + w) % 2 == 0 else TH("C02", "C16"), kind="panic", unwind=na + 6,
@@ -442,9 +456,18 @@ def div_family():
                     for w in (0, 2, 3, 4):
                         nf = 4 if w in (0, 2) else 1
                         for f in range(nf):
-                            quick = f == (na + nb + (sa == "n") + (sb == "n")) % nf and (na, nb) in ((1, 1), (2, 1), (3, 2), (3, 3), (2, 2)) and w in (0, 2)
-                            H("c02_%s_i_%d%d_%s%s_f%d" % (TW[w], na, nb, sa, sb, f), "h_div::div_i_trunc::<%d,%d,%d>(%s,%s,%d,%d,4)" % (na, nb, p, SIGN[sa], SIGN[sb], w, f),
-                              Q("C02", "C15") if quick else TH("C02", "C15"), unwind=p + 6, bound="IBig truncating division %s, lengths (%d,%d), signs %s%s, structured" % (TW[w], na, nb, sa, sb))
+                            rot = f == (na + nb + (sa == "n") + (sb == "n")) % nf
+                            if na < nb or (na, nb) == (1, 1):
+                                H("c02_%s_i_%d%d_%s%s_f%d" % (TW[w], na, nb, sa, sb, f), "h_div::div_i_trunc::<%d,%d,%d>(%s,%s,%d,%d,4,None)" % (na, nb, p, SIGN[sa], SIGN[sb], w, f),
+                                  Q("C02", "C15") if (rot and (na, nb) == (1, 1) and w in (0, 2)) else TH("C02", "C15"), unwind=p + 6,
+                                  bound="IBig truncating division %s, lengths (%d,%d), signs %s%s, structured, symbolic divisor" % (TW[w], na, nb, sa, sb))
+                            if na >= nb:
+                                for ln, lit in LITS[nb].items():
+                                    quick = rot and w in (0, 2) and ln in ("dtop5", "dw_shift", "lg705") and (na, nb) in ((1, 1), (2, 1), (3, 2), (3, 3), (2, 2), (3, 1))
+                                    H("c02_%s_i_%d_%s_%s%s_f%d" % (TW[w], na, ln, sa, sb, f),
+                                      "h_div::div_i_trunc::<%d,%d,%d>(%s,%s,%d,%d,4,Some([%s]))" % (na, nb, p, SIGN[sa], SIGN[sb], w, f, ",".join(map(str, lit))),
+                                      Q("C02", "C15") if quick else TH("C02", "C15"), unwind=p + 6,
+                                      bound="IBig truncating division %s, dividend %d structured words, literal |divisor| %s, signs %s%s" % (TW[w], na, ln, sa, sb))
     for cfg in ("i64", "i32"):
         for sa in "pn":
             for sb in "pn":
@@ -687,6 +710,18 @@ def buf_family():
       bound="KNOWN FINDING twin: negative IBig % u8 with a non-zero remainder")
 
 
+def thin():
+    """secondary properties (C15 forms, C17 invariants, C16 panics) ride on the harnesses of the arithmetic
+    families; in the quick tier they keep a deterministic quarter of those (all of them in thorough)"""
+    import zlib
+    for e in T:
+        for prop, own in (("C15", "c15_"), ("C17", "c17_"), ("C19", "c19_")):
+            if e["props"].get(prop) == "quick" and not e["name"].startswith(own):
+                keep = 4 if prop != "C19" else 2
+                if zlib.crc32((prop + e["name"]).encode()) % keep != 0:
+                    e["props"][prop] = "thorough"
+
+
 def build():
     global T, _names
     T = []
@@ -704,4 +739,5 @@ def build():
     round_family()
     numord_family()
     buf_family()
+    thin()
     return T
